@@ -1,6 +1,6 @@
 """tools/axiom_audit.py [samples] [parallel] - run every check (quick tier, /repo) with the soundness audit of the lowering's
 own constraints enabled (bbverif/sx/audit.py) and summarise: any line UNSOUND-AXIOM means an `unsat` of the engine cannot be
-trusted until the fact is corrected.  Evidence of the run is written to /verif/evidence/axiom_audit.json."""
+trusted until the fact is corrected.  Evidence of the run is written to /verif/audit/axiom_audit.json."""
 import json, os, subprocess, sys, tempfile, time
 from concurrent.futures import ThreadPoolExecutor
 V = os.path.dirname(os.path.dirname(os.path.abspath(__file__)))
@@ -36,7 +36,7 @@ nbad = sum(len(v["unsound"]) for v in res.values())
 json.dump({"what": "numerical audit of every constraint the lowering adds on its own account (definitions of atoms, instances of laws of exp / ln): "
                    "each must be true for every real assignment in which unguarded logarithms are defined; evaluated on random assignments with a relative "
                    "tolerance (closer than 1e-7: undecided, never a failure)", "samples_per_query": int(samples), "totals": tot, "unsound_constraints": nbad, "per_check": res},
-          open(f"{V}/evidence/axiom_audit.json", "w"), indent=1)
+          open(f"{V}/audit/axiom_audit.json", "w"), indent=1)
 for pid, v in res.items():
     print(pid, v["check_exit"], v["queries_audited"], v["constraint_evaluations"], len(v["unsound"]), f'{v["seconds"]}s')
     for b in v["unsound"]:
